@@ -9,6 +9,7 @@ import json
 import sys
 import typing
 import uuid
+from email.parser import BytesParser
 from urllib.parse import parse_qsl, unquote
 
 import httpx
@@ -80,8 +81,55 @@ def admits(v, hint):
     return False
 
 
+def classify_body(loc, kind, atom, seen):
+    """a property p of a form-urlencoded / multipart body -> (t, f, text)"""
+    want = CANON.get(atom)
+    if loc == "form":
+        texts = [v for k, v in parse_qsl(seen["content"].decode(), keep_blank_values=True) if k == "p"]
+        if not texts:
+            return "notsent", "-", ""
+        if atom == "l2":
+            return "placed", ("canon" if texts == L2[kind] else "other"), str(texts)
+        text = texts[0] if len(texts) == 1 else str(texts)
+        if want is not None and text == want:
+            return "placed", "canon", text
+        if text == "":
+            return "placed", "empty", text
+        if text[:1] in "[{" or "(" in text:
+            return "placed", "pyrepr", text
+        return "placed", "other", text
+    ct = seen["headers"].get("content-type", "")
+    msg = BytesParser().parsebytes(b"Content-Type: " + ct.encode() + b"\r\n\r\n" + seen["content"])
+    parts = [q for q in (msg.get_payload() if msg.is_multipart() else []) if q.get_param("name", header="content-disposition") == "p"]
+    if not parts:
+        return "notsent", "-", ""
+    if len(parts) != 1:
+        return "placed", "other", f"{len(parts)} parts"
+    q = parts[0]
+    ptype, text, fname = q.get_content_type(), q.get_payload(decode=True).decode("utf-8", "replace"), q.get_filename()
+    desc = f"{ptype}:{text[:60]}" + (f" filename={fname}" if fname else "")
+    if ptype == "application/json":
+        try:
+            val = json.loads(text)
+        except ValueError:
+            return "placed", "other", desc
+        exp = {"l2": {"list": ["x", "y"], "listint": [7, 0], "listenum": ["a", "b"]}.get(kind), "l0": [], "m": {"a": "x"}}.get(atom, "?")
+        return "placed", ("json" if val == exp else "other"), desc
+    if fname is not None:
+        return "placed", ("filepart" if want is not None and text == want else "other"), desc
+    if want is not None and text == want:
+        return "placed", "canon", desc
+    if atom in ("T", "F") and text == {"T": "True", "F": "False"}[atom]:
+        return "placed", "pycap", desc
+    if text == "None":
+        return "placed", "nonetext", desc
+    return "placed", "other", desc
+
+
 def classify(loc, kind, atom, seen):
     """-> (t, f, text)"""
+    if loc in ("form", "multipart"):
+        return classify_body(loc, kind, atom, seen)
     if loc == "path":
         text = unquote(seen["path"].rsplit("/", 1)[-1])
         texts = [text]
@@ -127,23 +175,30 @@ for case in job["cases"]:
     try:
         mod = importlib.import_module(f"{pkg}.api.{case['module']}")
         fn = getattr(mod, case["variant"])
-        hints = typing.get_type_hints(fn, vars(models) | vars(types_mod) | vars(client_mod) | {"datetime": datetime, "UUID": uuid.UUID})
-        hint = hints["p"]
+        ns = vars(models) | vars(types_mod) | vars(client_mod) | {"datetime": datetime, "UUID": uuid.UUID}
+        body_cls = getattr(models, case["body_class"]) if case.get("body_class") else None
+        hint = typing.get_type_hints(body_cls, ns)["p"] if body_cls is not None else typing.get_type_hints(fn, ns)["p"]
         obs["hint"] = str(hint).replace("typing.", "").replace(pkg + ".", "")
         seen = []
 
         def handler(request, seen=seen):
             seen.append({"path": request.url.raw_path.decode().split("?")[0], "query": parse_qsl(request.url.query.decode(), keep_blank_values=True),
-                         "headers": {k.lower(): v for k, v in request.headers.items()}})
+                         "headers": {k.lower(): v for k, v in request.headers.items()}, "content": request.content})
             return httpx.Response(204)
 
         client = client_mod.Client(base_url="http://testserver/b", httpx_args={"transport": httpx.MockTransport(handler)})
         kwargs = {"client": client}
         if case["atom"] == "U":
             obs["admitted"] = admits(types_mod.UNSET, hint)
+            if body_cls is not None:
+                kwargs["body"] = body_cls(z="zz")
         else:
-            kwargs["p"] = value_of(case["kind"], case["atom"], hint)
-            obs["admitted"] = admits(kwargs["p"], hint)
+            val = value_of(case["kind"], case["atom"], hint)
+            obs["admitted"] = admits(val, hint)
+            if body_cls is not None:
+                kwargs["body"] = body_cls(p=val, z="zz")
+            else:
+                kwargs["p"] = val
         try:
             asyncio.run(fn(**kwargs)) if case["variant"].startswith("asyncio") else fn(**kwargs)
             obs["requests"] = len(seen)
